@@ -201,8 +201,8 @@ def hasExponentNumber (d : String) : Bool :=
   go d.toList
 
 mutual
-/-- a `range(from, to, <boolean literal>)` call that is NOT the iterator of an iteration: the printer writes the
-sugar `from..to`, which the grammar only reads in iterator position -/
+/-- a `range(from, to, <boolean literal>)` call that is NOT the iterator of an iteration: before 10f80da the printer
+wrote the sugar `from..to`, which the grammar only reads in iterator position (kept as regression detector) -/
 partial def rangeOutsideIterator : PExp → Bool
   | .call n as => isRangeSugar n as || as.any rangeOutsideIterator
   | .cvar _ as | .access _ as | .block _ as => as.any rangeOutsideIterator
@@ -216,7 +216,8 @@ partial def rangeInIterator : PExp → Bool
   | e => rangeOutsideIterator e
 end
 
-/-- a compound variable with a float index `x_{1.5}` is printed `x_1.5`, which the builder of compound variables refuses -/
+/-- (repaired in 7352fcb, kept as regression detector) a compound variable with a float index `x_{1.5}` was printed
+`x_1.5`, which the builder of compound variables refuses -/
 partial def floatIndex : PExp → Bool
   | .cvar _ as => as.any (fun | .num _ => true | e => floatIndex e)
   | .access _ as | .call _ as | .block _ as => as.any floatIndex
@@ -225,7 +226,8 @@ partial def floatIndex : PExp → Bool
   | .un _ e => floatIndex e
   | _ => false
 
-/-- a compound variable with a string index `x_{"a"}` is printed `x_a`, which is read as the index variable `a`
+/-- (repaired in 7352fcb, kept as regression detector) a compound variable with a string index `x_{"a"}` was printed
+`x_a`, which is read as the index variable `a`
 (a string index is only printed bare when it is a literal name fragment `_2`) -/
 partial def stringIndex : PExp → Bool
   | .cvar _ as => as.any (fun | .str s => !(s.startsWith "_") | e => stringIndex e)
@@ -235,7 +237,7 @@ partial def stringIndex : PExp → Bool
   | .un _ e => stringIndex e
   | _ => false
 
-/-- `Debug` of a mixed array: `[Integer(1), Boolean(true)]` -/
+/-- `Debug` of a mixed array: `[Integer(1), Boolean(true)]` (repaired in ceec4dc, kept as regression detector) -/
 def hasDebugArray (d : String) : Bool :=
   ["Integer(", "Boolean(", "Number(", "String(", "PositiveInteger("].any fun k => (d.splitOn k).length > 1
 
@@ -351,7 +353,8 @@ def allExps (b : PModel) : List PExp :=
     ++ b.constraints.flatMap (fun c => match c.name with | some (.compound n idx) => [PExp.cvar n idx] | _ => [])
     ++ b.domains.flatMap (fun d => d.vars.filterMap (fun | .compound n idx => some (PExp.cvar n idx) | _ => none))
 
-/-- the known printer defect a program runs into, if any (root cause of whatever deviation the case shows) -/
+/-- the (repaired) printer defect a program would run into, if any: a deviation of such a program is attributed to
+the recurrence of that defect -/
 def knownPrinterDefect (b : PModel) : Option String :=
   let lits := (slots b).foldl (fun acc x => let r := expLiterals x.2; (acc.1 ++ r.1, acc.2 ++ r.2)) (([], []) : List String × List String)
   if (allExps b).any stringIndex then some "string-index-of-compound-variable-printed-bare"
